@@ -92,6 +92,9 @@ class Run:
     def error(self, rule, module, function, construct, message='', node=None, **kw):
         return self.add(rule, module, function, construct, None, message, node, **kw)
 
+    def has_violation(self) -> bool:
+        return any(i.verdict == VIOLATION for i in self.instances)
+
     def floor(self, rule: str, minimum: int):
         """Instance floor: fewer recognised instances than confirmed by hand is an analysis error."""
         self.floors[rule] = minimum
